@@ -279,6 +279,16 @@ def run(ctx) -> None:
         if c.get("regexes is None") is False and any("'.*'" in a for a in asg):
             okc = False
             msgs.append("given regexes replaced by the default")
+        iasg = [e.text for e in p.evs if e.kind == "assign" and e.extra.get("name") == "ignore_regexes"]
+        if c.get("ignore_regexes is None") is True and not any(a.endswith("= []") or a.endswith("= ()") for a in iasg):
+            okc = False
+            msgs.append("ignore_regexes=None is not replaced by an empty list: the constructor iterates None (TypeError for every handler built with defaults)")
+        if c.get("ignore_regexes is None") is False and iasg:
+            okc = False
+            msgs.append("given ignore regexes replaced by the default")
+        if c.get("ignore_regexes is None") is None:
+            okc = False
+            msgs.append("ignore_regexes is not tested against None")
         if "regexes" not in st.get("_regexes", "").replace("ignore_regexes", ""):
             okc = False
             msgs.append("include regexes not routed")
@@ -399,6 +409,7 @@ VARIANTS = [
     dict(name="B typed callback before on_any_event", expect="fire", rule="C15/dispatch-shape", edits=[(EV, "        self.on_any_event(event)\n        getattr(self, f\"on_{event.event_type}\")(event)", "        getattr(self, f\"on_{event.event_type}\")(event)\n        self.on_any_event(event)")]),
     dict(name="B include before ignore in regex handler", expect="fire", rule="C15/option-routing", edits=[(EV, "        if any(r.match(p) for r in self.ignore_regexes for p in paths):\n            return\n\n        if any(r.match(p) for r in self.regexes for p in paths):\n            super().dispatch(event)", "        if any(r.match(p) for r in self.regexes for p in paths):\n            super().dispatch(event)\n            return\n\n        if any(r.match(p) for r in self.ignore_regexes for p in paths):\n            return")]),
     dict(name="B ignore_patterns property returns patterns", expect="fire", rule="C15/option-routing", edits=[(EV, "        return self._ignore_patterns", "        return self._patterns")]),
+    dict(name="B regex handler: ignore default dropped", expect="fire", rule="C15/option-routing", edits=[("events.py", "        if ignore_regexes is None:\n            ignore_regexes = []\n", "        if ignore_regexes is None:\n            pass\n")]),
     dict(name="B default include only when empty list", expect="fire", rule="C15/option-routing", edits=[(PT, 'included = set(["*"] if included_patterns is None else included_patterns)', 'included = set(included_patterns or ["*"])')]),
     dict(name="B conflict check dropped", expect="fire", rule="C15/option-routing", edits=[(PT, "    if common_patterns:\n        error = f\"conflicting patterns `{common_patterns}` included and excluded\"\n        raise ValueError(error)\n", "")]),
     dict(name="B src path not collected", expect="fire", rule="C15/option-routing", edits=[(EV, "        if event.src_path:\n            paths.append(os.fsdecode(event.src_path))\n\n        if match_any_paths(", "        if match_any_paths(")]),
